@@ -123,7 +123,7 @@ def _insert_false_asserts(built):
         out.append(t.ws + t.text)
         if idx in pos:
             out.append(" proof { assert(false); } /*CANARY:%s*/" % pos[idx])
-    return "".join(out) + tail, [w for _, w in inserts]
+    return "".join(out) + tail, [pos[b] for b in sorted(pos)]     # one probe per brace (a site can be reached twice by the scan)
 
 def vacuity_canary(unit, pid=None):
     sites = []
@@ -143,7 +143,9 @@ def vacuity_canary(unit, pid=None):
             hit.add((e["line"], e["raw"]))
     n_expected = len(sites)
     n_hit = len(hit)
-    return {"unit": unit, "sites": n_expected, "failed_as_expected": n_hit, "ok": n_hit >= n_expected and n_expected > 0,
+    # a unit without real functions (pure spec vocabulary: sm2_math, sm9_math, ...) has no site to probe
+    no_real = not any(rf for rf in (r.built.real_fns or []))
+    return {"unit": unit, "sites": n_expected, "failed_as_expected": n_hit, "ok": (n_hit >= n_expected and n_expected > 0) or (n_expected == 0 and no_real),
             "tool_errors": r.tool_errors[:3]}
 
 def load_canaries(unit):
